@@ -35,7 +35,7 @@ def plan(tier, seed):
     if tier == "thorough":
         d = cases.tok("usn", s=-1, fs=-1, interp="dct", wall={"kind": "poly", "n": 14, "phase": 0.3}, guards=0, tag="c16-usn-dct", ny_inner_divertor=5, ny_outer_divertor=3)
         pair(d, cases.mirror_of(d), "mirror", "mirror usn<->lsn (dct)")
-        e = cases.tok("udn", s=1, fs=-1, orth=False, wall="slant", tag="c16-udn-nonorth")
+        e = cases.tok("udn", s=1, fs=-1, orth=False, wall="slant", tag="c16-udn-nonorth", nonorthogonal_target_inner_lower_poloidal_spacing_length=0.25, nonorthogonal_target_outer_lower_poloidal_spacing_length=0.35, nonorthogonal_target_inner_upper_poloidal_spacing_length=0.28, nonorthogonal_target_outer_upper_poloidal_spacing_length=0.32, nonorthogonal_target_inner_lower_poloidal_spacing_range=0.25, nonorthogonal_target_outer_upper_poloidal_spacing_range=0.35)
         pair(e, cases.mirror_of(e), "mirror", "mirror udn<->ldn (non-orthogonal)", pos_tol=1e-7, rel_tol=1e-5)
     # reversal pairs
     base = cases.tok("lsn", s=1, fs=1, tag="c16-base")
